@@ -420,3 +420,73 @@ Proof.
   unfold RepInv. split; [|split]; vm_compute; try reflexivity; try discriminate.
   repeat split; reflexivity.
 Qed.
+
+(* ================================================================== *)
+(* CROSS-NODE CLAUSE: "after installing a snapshot the node's configuration equals that of
+   a node that applied the log up to the snapshot index".  Proofs: M/RaftProofsXnode.v;
+   conf_after / ConfIs / describes are defined and pinned in Props/C09.v section 7.
+
+   PROVED: an install (restore = Ok (_, true)) makes the node's configuration AND its set of
+   tracked ids exactly ConfChange.restore of the snapshot's ConfState
+   (C15_install_conf_is_restore); if that ConfState describes the configuration of a node
+   `sender` that applied the changes ccs - e.g. it is the ConfState sender's last
+   apply_conf_change returned - the receiver ends with sender's configuration and tracked
+   ids, and is itself at ConfIs _ cs0 ccs, so everything it applies afterwards extends the
+   same list (C15_install_same_conf, C15_restore_conf_after); through Raft::step on any
+   message: the configuration is unchanged or the message is a MsgSnapshot that installed
+   (C15_step_snapshot_conf).
+
+   ASSUMED, not proved: that the application builds its snapshots with the ConfState
+   returned by its apply_conf_change at the snapshot index (and applies the committed
+   membership entries in log order); incoming <> [] (a voter exists), from C12's round trip. *)
+From RV Require Import M.ConfChangeProofs M.RaftProofsC17 M.RaftProofsXnode.
+
+Theorem C15_install_conf_is_restore :
+  forall r s r',
+  restore r s = Ok (r', true) ->
+  exists t, ConfChange.restore empty_tracker (s_cs s) = ROk t /\
+            (conf_of r', pids (t_progress (r_prs r'))) = t.
+Proof. exact restore_true_sk. Qed.
+Print Assumptions C15_install_conf_is_restore.
+
+Theorem C15_restore_conf_after :
+  forall r s r' cs0 ccs c0 p0,
+  restore r s = Ok (r', true) ->
+  conf_after cs0 ccs = Some (c0, p0) -> incoming c0 <> [] -> describes (s_cs s) c0 ->
+  ConfIs r' cs0 ccs /\ (conf_of r', pids (t_progress (r_prs r'))) = (c0, p0).
+Proof. exact restore_ConfIs. Qed.
+Print Assumptions C15_restore_conf_after.
+
+Theorem C15_install_same_conf :
+  forall sender r s r' cs0 ccs,
+  ConfIs sender cs0 ccs -> incoming (conf_of sender) <> [] ->
+  describes (s_cs s) (conf_of sender) ->
+  restore r s = Ok (r', true) ->
+  ConfIs r' cs0 ccs /\ conf_of r' = conf_of sender /\
+  pids (t_progress (r_prs r')) = pids (t_progress (r_prs sender)).
+Proof. exact install_same_conf. Qed.
+Print Assumptions C15_install_same_conf.
+
+Theorem C15_step_snapshot_conf :
+  forall r m r' c cs0 ccs ccs' c0 p0,
+  ConfIs r cs0 ccs -> step r m = Ok (r', c) ->
+  conf_after cs0 ccs' = Some (c0, p0) -> incoming c0 <> [] ->
+  describes (s_cs (m_snapshot m)) c0 ->
+  ConfIs r' cs0 ccs \/
+  (m_type m = MsgSnapshot /\ ConfIs r' cs0 ccs' /\
+   (conf_of r', pids (t_progress (r_prs r'))) = (c0, p0)).
+Proof. exact step_snapshot_ConfIs. Qed.
+Print Assumptions C15_step_snapshot_conf.
+
+(* non-vacuity: the C09 sample follower (voters 1 2 3) installs a snapshot whose ConfState
+   (voters 2 3 4, learner 1) is what "add 4; demote 1" gives on the initial voters 1 2 3 *)
+Example C15_install_conf_example :
+  conf_after XnodeSamples.cs3 [XnodeSamples.cc_add4; XnodeSamples.cc_demote1]
+    = Some (mkConf [2; 3; 4] [] [1] [] false, [1; 2; 3; 4]) /\
+  describes (s_cs RaftProofsC09.C09Samples.s_snap) (mkConf [2; 3; 4] [] [1] [] false) /\
+  exists r', restore RaftProofsC09.C09Samples.s_follower RaftProofsC09.C09Samples.s_snap = Ok (r', true) /\
+    (conf_of r', pids (t_progress (r_prs r'))) = (mkConf [2; 3; 4] [] [1] [] false, [1; 2; 3; 4]).
+Proof.
+  split; [vm_compute; reflexivity|]. split; [repeat split; intros x; reflexivity|].
+  eexists. split; vm_compute; reflexivity.
+Qed.
